@@ -1,4 +1,5 @@
 SPECIFICATION TraceSpec
 CONSTANT Strict = FALSE
+CONSTANT HighLiteral = TRUE
 POSTCONDITION Accepted
 CHECK_DEADLOCK FALSE
